@@ -187,6 +187,16 @@ func registerUserFuncs() {
 		}
 		decoder.RegisterModFn("suffix", "", suffix("suffix"))
 		decoder.RegisterModFnNS("ns", "suffix", "", suffix("ns::suffix"))
+		// functions registered with a namespace and an alias (used by the
+		// registration oracle of C17 only; the Coq model does not know them)
+		decoder.RegisterModFnNS("vns", "tail", "tl", suffix("vns::tail"))
+		decoder.RegisterModFn("plaintail", "ptl", suffix("plaintail"))
+		decoder.RegisterCallbackFnNS("vns", "note", "nt", cb("vns::note"))
+		decoder.RegisterGetterFnNS("vns", "konst", "kn", func(ctx *decoder.Ctx, buf *any, args []any) error {
+			k := []byte("VK")
+			*buf = &k
+			return nil
+		})
 
 		decoder.RegisterCondFn("isTrue", func(ctx *decoder.Ctx, args []any) bool {
 			// a condition helper has no error result: it reports a failure through ctx.Err
